@@ -723,7 +723,7 @@ def run_all(out, binary, drv, todo, errf, workers):
 
 # ------------------------------------------------------------------ CLI fallback (weaker tie)
 def cli_tie(out, tier):
-    """Only used when the step-controlled harness is unavailable.  Real `grog build` processes on one
+    """Real `grog build` processes on one
     workspace, one slow uncached target that logs when it starts and ends: the logged intervals must
     not overlap; a lock file naming a reaped PID / garbage must not block; a build killed while it
     holds the lock must not block the next one.  Free-running processes: the narrow windows of W1/W2
@@ -828,6 +828,133 @@ def cli_tie(out, tier):
     return res
 
 
+def cli_parked_holder(out):
+    """The lock as `grog build` USES it (cmds/build.go: Lock before the build, Unlock when RunBuild returns), on real processes:
+    holder A has finished its targets but is still inside the command -- it is printing its summary into a 4 KiB pipe that is
+    drained a few bytes at a time --, contender B is started at that moment, contender C as soon as B's target runs.  A process is
+    past lock acquisition from its first target to its exit: the targets of B and C must not overlap, whenever A lets go."""
+    import fcntl, threading
+    try:
+        grog = vlib.build_grog()
+    except vlib.HarnessUnavailable as e:
+        return {"available": False}
+    base = os.path.join(vlib.scratch(), "c10parked")
+    shutil.rmtree(base, ignore_errors=True)
+    ws, root = os.path.join(base, "ws"), os.path.join(base, "root")
+    os.makedirs(ws); os.makedirs(root)
+    events = os.path.join(base, "events.log")
+    open(events, "w").close()
+    open(os.path.join(ws, "grog.toml"), "w").write("")
+    n = 60
+    name = lambda i: "link_with_a_deliberately_long_target_name_so_that_the_summary_of_the_build_is_several_kilobytes_%03d" % i
+    targets = []
+    for i in range(n):
+        t = {"name": name(i), "command": "true" if i < n - 1 else "echo end a >> %s" % events}
+        if i:
+            t["dependencies"] = [":" + name(i - 1)]
+        targets.append(t)
+    for x, secs in (("b", "3"), ("c", "0.5")):
+        targets.append({"name": "slow_" + x, "tags": ["no-cache"],
+                        "command": "echo start %s >> %s; sleep %s; echo end %s >> %s" % (x, events, secs, x, events)})
+    json.dump({"targets": targets}, open(os.path.join(ws, "BUILD.json"), "w"))
+    env = dict(os.environ, GROG_ROOT=root, HOME=vlib.scratch(), NO_COLOR="1")
+    env.pop("CI", None)
+    procs = []
+
+    def start(args, stdout):
+        p = subprocess.Popen([grog, "build"] + args, cwd=ws, env=env, stdin=subprocess.DEVNULL, stdout=stdout, stderr=subprocess.STDOUT)
+        procs.append(p)
+        return p
+    evs = lambda: [l.strip() for l in open(events) if l.strip()]
+
+    def wait_ev(e, tmo):
+        dl = time.time() + tmo
+        while time.time() < dl:
+            if e in evs():
+                return True
+            time.sleep(0.02)
+        return False
+    res = {"available": True, "overlap": False}
+    try:
+        r, w = os.pipe()
+        try:
+            fcntl.fcntl(w, 1031, 4096)      # F_SETPIPE_SZ
+        except OSError:
+            pass
+        a = start(["--debug", "//:" + name(n - 1)], w)
+        os.close(w)
+        stop = threading.Event()
+        drained = [0]
+
+        def drain():
+            # slowly until told otherwise: A spends seconds between the end of its last target and its exit
+            while True:
+                try:
+                    chunk = os.read(r, 64 if not stop.is_set() else 65536)
+                except OSError:
+                    break
+                if not chunk:
+                    break
+                drained[0] += len(chunk)
+                if not stop.is_set() and "end a" in evs():
+                    time.sleep(0.012)
+        th = threading.Thread(target=drain, daemon=True)
+        th.start()
+        if not wait_ev("end a", 90):
+            res["setup"] = "holder A never finished its targets"
+            return res
+        t_end_a = time.time()
+        devnull = open(os.devnull, "w")
+        b = start(["//:slow_b"], devnull)
+        if wait_ev("start b", 60):
+            c = start(["//:slow_c"], devnull)
+        else:
+            res["setup"] = "contender B never ran its target"
+            return res
+        res["holder_alive_when_b_started_its_target"] = a.poll() is None
+        res["seconds_from_end_of_a_targets_to_b_target"] = round(time.time() - t_end_a, 2)
+        for p in (a, b, c):
+            try:
+                p.wait(timeout=90)
+            except subprocess.TimeoutExpired:
+                stop.set()
+                try:
+                    p.wait(timeout=30)
+                except subprocess.TimeoutExpired:
+                    p.kill(); p.wait()
+                    out.violation("grog build did not finish within 120 s next to two other builds of the workspace (holder printing into a slow pipe)",
+                                  {"events": evs()})
+        stop.set()
+        log = evs()
+        res["events"] = log
+        res["summary_bytes_of_holder"] = drained[0]
+        res["exit"] = [p.returncode for p in (a, b, c)]
+        depth = 0
+        for e in log:
+            if e.startswith("start"):
+                depth += 1
+                if depth > 1:
+                    res["overlap"] = True
+            elif e.startswith("end") and e != "end a":
+                depth -= 1
+        if res["overlap"]:
+            out.violation("two grog builds of one workspace were past lock acquisition at the same time: the targets of contenders B and C overlap "
+                          "(events %s); holder A had finished its targets and was still printing its summary into a slowly drained pipe when B "
+                          "was started, C was started when B's target ran" % log,
+                          {"description": ["workspace: a chain of %d cheap targets (A, --debug, stdout = 4 KiB pipe drained 64 bytes at a time once "
+                                           "its last target ended), //:slow_b (3 s), //:slow_c (0.5 s), one GROG_ROOT" % n,
+                                           "A: grog build --debug //:<last link>; B: grog build //:slow_b when A's last target ended; "
+                                           "C: grog build //:slow_c when B's target started"], "observed": res})
+        elif [e for e in log if e != "end a"] not in (["start b", "end b", "start c", "end c"],):
+            res["setup"] = "unexpected event order %s" % log
+    finally:
+        for p in procs:
+            if p.poll() is None:
+                p.kill(); p.wait()
+        shutil.rmtree(base, ignore_errors=True)
+    return res
+
+
 def run(out, tier):
     rng = vlib.Rng(vlib.seed())
     drv = vlib.build_driver("lock")
@@ -855,6 +982,8 @@ def run(out, tier):
                         "samples": [{"fallback": cli}], "states": stats.get("explorer_states", 0),
                         "transitions": stats.get("explorer_transitions", 0)})
         return
+    parked = cli_parked_holder(out)
+    cli = cli_tie(out, tier)
     errp = os.path.join(vlib.scratch(), "contenders.err")
     with open(errp, "ab") as errf:
         counters, results = run_all(out, binary, drv, todo, errf, workers=8)
@@ -897,12 +1026,17 @@ def run(out, tier):
         "schedules_with_cancel": counters["cancel_schedules"], "cancels_executed": counters["cancels_executed"],
         "cancel_oracle_failures": counters["cancel_failures"],
         "input_distribution": kinds, "inprocess_tie": True, "instrumentation": info,
+        "cli_tie": cli, "cli_parked_holder": parked,
         "explorer_schedules_2proc": stats["explorer_schedules_2proc"], "exhaustive": bool(stats.get("exhaustive_2proc")),
     })
 
 
 def replay(out, path):
     rp = json.load(open(path))["replay"]
+    if "description" in rp and "observed" in rp:
+        print(json.dumps(rp["description"], indent=1)); print(json.dumps(rp["observed"], indent=1)[:2000])
+        print("re-run:", json.dumps(cli_parked_holder(out))[:1500])
+        return
     sc = rp["schedule"]
     drv = vlib.build_driver("lock")
     binary, info = build_contender()
